@@ -66,13 +66,6 @@ CLAIMED = {
         "technique": "Rocq proof by induction over option lists, registry histories and middleware lists + (1) Go->Gallina translation of the option functions, BuildMiddleware, NewWith, Register, NewRest on every run with bridge lemmas re-checked by coqc, (2) differential run of the runtime/generated client vs model",
         "coq_targets": ["Properties/C19.vo", "Corr/RestRuntimeCorr.vo"],
     },
-    "C17": {
-        "text": "Theorems over all directory states (hard links, look-alikes, leftovers), all output lists in any order, all chunkings of every write, all temp names and ALL crash points (prefixes of the operation list): every output name shows the complete old or the complete new file; no pre-existing inode is ever written (hard links and open readers keep the old bytes); names that are not outputs, this run's temporaries or Clean victims are untouched; after normal termination no temporary remains; Clean's victims are exactly the matching files that carry the header of the same subcommand and are not all-in-one files, never a hand-written file; output names match *.shoot<cmd>*.go and are path components. Tied to cmd/shoot/main.go and generatorbase.go by strace-level trace correspondence, inode/state diffs, L1 comparison of the header regexps and glob, and (thorough) SIGKILL and concurrent-reader runs.",
-        "design_ref": "DESIGN.md section 8, C17; section 13",
-        "note": COMMON_NOTE + "Partial: rename(2) atomicity and the kernel's behaviour under SIGKILL are assumptions of the model (sampled by 200 killed runs in the thorough tier); the directory is flat and holds regular files only. Open finding K_clean_own_output (-type '*' together with [dir]: Clean deletes the run's own output) is guarded, refuted by witness and replayed.",
-        "technique": "Rocq proof of an inode-level file-system model of the write protocol (invariants over all operation prefixes) + strace trace/inode-state correspondence with the real binary, compared inside Coq",
-        "coq_targets": ["Properties/C17.vo", "Corr/FsCorr.vo"],
-    },
     "C05": {
         "text": "Theorems over all mapping jobs (any type environment, embedding depth, field lists, tags, mapper methods, flags): ToX/FromX plans are write-once and every emitted statement joins name-matching fields with a strategy applicable to their types (assignment / conversion minus string<->fixed-width int / exact-signature mapper method / sub-struct by value, pointer, slice); invariant proved by induction over the two literal matching passes with shared Field objects. Semantics, completeness and priority are evaluated inside Coq against a declarative specification on every sampled case (not yet a theorem); six open findings delimit the guard, three of them with Coq refutation witnesses.",
         "design_ref": "DESIGN.md section 8, C05; section 13",
@@ -177,6 +170,13 @@ CLAIMED = {
         "note": COMMON_NOTE + "partial: packages.Load on syntactically broken input, the text produced by the templates (oracle), go/types facts (recomputed from the abstract syntax) and the untranscribed parts of the generators are outside the proofs; token deletions and compile errors are checked against the property itself only; I/O faults beyond CreateTemp/Write of the first file are theorem-only.",
         "technique": "Rocq proof over an executable phase/effect-log model (generic invariant pass over the literal control flow, guarded partial operations proved unreachable, rank-based termination over package scopes, write/cleanup frame lemmas) + differential run of the shoot binary on typed damaged inputs, directory histories and injected I/O faults, compared inside Coq",
         "coq_targets": ["Properties/C18.vo", "Corr/FailCorr.vo"],
+    },
+    "C17": {
+        "text": "Theorems over all directory states (hard links, look-alikes, leftovers), all output lists in any order, all chunkings of every write, all temp names and ALL crash points (prefixes of the operation list): every output name shows the complete old or the complete new file; no pre-existing inode is ever written (hard links and open readers keep the old bytes); names that are not outputs, this run's temporaries or files selected by Clean are untouched; a selected file is removed only once every output is complete; after an exit-0 run no temporary remains, and after a run in which one system call fails (any position) the same invariants hold and no temporary remains unless the failing call is the rename; Clean selects exactly the matching files whose first line is the header of the same subcommand and not a -type=* header, so a file without that header is never removed; output names match *.shoot<cmd>*.go and are path components. NOT proved for the current code: that a selected file is superseded by the new all-in-one file (declarative `superseded`; proved for a repaired Clean, refuted for the current one: open finding K_clean_not_superseded). Tied to cmd/shoot/main.go and generatorbase.go by strace-level trace correspondence (incl. provoked ENOSPC and rename failures), inode/state diffs, L1 comparison of the header regexps and glob, SIGKILL and concurrent-reader runs.",
+        "design_ref": "DESIGN.md section 8, C17; section 13",
+        "note": COMMON_NOTE + "Partial: rename(2) atomicity and the kernel's behaviour under SIGKILL are assumptions of the model (sampled by >= 200 killed runs in the thorough tier); the directory is flat and holds regular files only; intermediate instants are checked on the replayed trace, not observed; all successful outputs were single-write, partial writes are observed only under ENOSPC. Findings: K_clean_own_output (found here, fixed in 31cd4c3, defect branch kept and refuted, current code proved free of it); K_clean_not_superseded (open: `map -type=S -to=D` output deleted by a later -type=* run that does not cover S; refuted by witness, replayed, prototype patch recorded).",
+        "technique": "Rocq proof of an inode-level file-system model of the write protocol (invariants over all operation prefixes and over one failing call) + strace trace/inode-state correspondence with the real binary, compared inside Coq",
+        "coq_targets": ["Properties/C17.vo", "Corr/FsCorr.vo"],
     },
 }
 
